@@ -10,7 +10,7 @@ RULE = ('Hypothesis-generated coordinate-sorted in-memory fragment lists (n<=14 
         'scCHIC and plain Fragment classes; 1..3 cells; duplicates arriving after unrelated molecules; short and long '
         'fragments; 1..2 contigs). For every input ALL schedules check_eject_every in {None,0..n} x pooling_method {0,1} '
         'are run (exhaustive over schedules) and each partition is compared with the never-eject partition; every '
-        'fragment must be emitted exactly once. Half of the cases without bridging cap the fragments per molecule (1..3): the first cap fragments of a class form the molecule, each later duplicate is an overflow singleton, for every schedule. A quarter of the plain cases contain a bridging fragment that matches two buffered molecules (shares its start with one and its end with the other): there each pooling method is compared with its own never-eject partition; every '
+        'fragment must be emitted exactly once. Half of the cases without bridging cap the fragments per molecule (1..3): the first cap fragments of a class form the molecule, each later duplicate is an overflow singleton, for every schedule. In 3/7 of the cases every schedule runs on an iterator object that was looked at before (first 0..2 molecules, then abandoned). A quarter of the plain cases contain a bridging fragment that matches two buffered molecules (shares its start with one and its end with the other): there each pooling method is compared with its own never-eject partition; every '
         'fragment must be emitted exactly once. Part wide: spans up to cache_size-1, kept only when in_domain() holds. Non-trivial: some schedule ejected a molecule before the end of the '
         'input while a further fragment was still to come, and the input has a molecule with >=2 fragments.')
 ASSUMPTIONS = ['input sorted by fragment start; every fragment span < cache_size/4 (strict reading of "shorter than the cache radius"), or (part wide) any span < cache_size provided no fragment ends more than cache_size/2 beyond the current extent of a molecule that still has fragments to come',
@@ -101,7 +101,8 @@ def strategy(max_n, wide=False):
         cap = draw(st.sampled_from([None, None, None, 1, 2, 3]))
         if ambiguous:
             cap = None
-        return {'kind': kind, 'cache': cache, 'frags': frags, 'ambiguous': ambiguous, 'cap': cap}
+        peek = draw(st.sampled_from([None, None, None, None, 0, 1, 2]))
+        return {'kind': kind, 'cache': cache, 'frags': frags, 'ambiguous': ambiguous, 'cap': cap, 'peek': peek}
     return case()
 
 
@@ -140,10 +141,18 @@ def run_schedule(case, every, pooling):
             consumed[0] += 1
             yield r
     log = []
-    it = MoleculeIterator(source(), molecule_class=mc, fragment_class=fcls, perform_qflag=False,
+    peek = case.get('peek')
+    src = source() if peek is None else build_reads(case)        # a list can be iterated twice
+    it = MoleculeIterator(src, molecule_class=mc, fragment_class=fcls, perform_qflag=False,
                           check_eject_every=every, pooling_method=pooling,
                           molecule_class_args=dict({'cache_size': case['cache']}, **({'max_associated_fragments': case['cap']} if case.get('cap') else {})),
                           fragment_class_args={'umi_hamming_distance': 0})
+    if peek is not None:
+        # history: the same iterator object was looked at before (first `peek` molecules, then abandoned)
+        for i, m in enumerate(it):
+            if i >= peek:
+                break
+        consumed[0] = len(src)
     for m in it:
         names = tuple(sorted(r.query_name for fr in m for r in fr if r is not None))
         log.append((consumed[0], names))
